@@ -269,42 +269,27 @@ class Module(AuxDataContainer):
         m.sections.update(
             Section._from_protobuf(s, ir) for s in proto_module.sections
         )
-        # entry point is a code block, which depends on sections
-        m.entry_point = None
-        if proto_module.entry_point:
-            entry_point_uuid = UUID(bytes=proto_module.entry_point)
-            entry_point = ir.get_by_uuid(entry_point_uuid)
-            if entry_point is None:
-                # The block may belong to a module that is decoded later;
-                # the IR resolves it once all of its modules are decoded.
-                m._pending_entry_point = entry_point_uuid
-            elif not isinstance(entry_point, CodeBlock):
-                raise DeserializationError(
-                    "Module: entry block UUID %s is not a CodeBlock"
-                    % entry_point_uuid
-                )
-            else:
-                m.entry_point = entry_point
-        # symbols depend on blocks
-        m.symbols.update(
-            Symbol._from_protobuf(s, ir) for s in proto_module.symbols
-        )
-        # symbolic expressions depend on symbols
-        for section in m.sections:
-            for interval in section.byte_intervals:
-                interval._decode_symbolic_expressions(ir)
-        # aux data may depend on any node
+        # aux data is decoded lazily, so it may refer to any node
         m.aux_data.update(
             AuxDataContainer._read_protobuf_aux_data(proto_module.aux_data, ir)
         )
+        # Symbols, the entry point and symbolic expressions may refer to
+        # nodes of any module of the IR, whatever the order the modules are
+        # listed in, so the IR decodes them once every module has its blocks
+        # (_decode_symbols) and its symbols (_decode_symbolic_expressions).
+        m._proto_module = proto_module
 
         return m
 
-    def _resolve_pending_entry_point(self, ir: "IR") -> None:
-        """Resolve an entry point that named a block of a later module."""
-
-        entry_point_uuid = self.__dict__.pop("_pending_entry_point", None)
-        if entry_point_uuid is not None:
+    def _decode_symbols(self, ir: "IR") -> None:
+        """Called by the IR after the sections and proxies of all of its
+        modules are decoded.
+        """
+        proto_module = self._proto_module
+        # entry point is a code block, which depends on sections
+        self.entry_point = None
+        if proto_module.entry_point:
+            entry_point_uuid = UUID(bytes=proto_module.entry_point)
             entry_point = ir.get_by_uuid(entry_point_uuid)
             if not isinstance(entry_point, CodeBlock):
                 raise DeserializationError(
@@ -312,6 +297,20 @@ class Module(AuxDataContainer):
                     % entry_point_uuid
                 )
             self.entry_point = entry_point
+        # symbols depend on blocks
+        self.symbols.update(
+            Symbol._from_protobuf(s, ir) for s in proto_module.symbols
+        )
+
+    def _decode_symbolic_expressions(self, ir: "IR") -> None:
+        """Called by the IR after the symbols of all of its modules are
+        decoded.
+        """
+        # symbolic expressions depend on symbols
+        for section in self.sections:
+            for interval in section.byte_intervals:
+                interval._decode_symbolic_expressions(ir)
+        del self._proto_module
 
     def _to_protobuf(self) -> Module_pb2.Module:
         proto_module = Module_pb2.Module()
